@@ -12,7 +12,8 @@
  *       <spread> further lengths spread evenly up to the file size; prints
  *         swept <file> points=<n> maxcpu=<seconds of the slowest prefix> at=<its length>
  *   c02_play meter <file>...                       (build with -DWRAP_METERS and the --wrap options below)
- *       each file, unmodified: memory test + load + release; prints
+ *       each file, unmodified: test + load + release from memory, through a FILE handle, and by path (the entry
+ *       point that unpacks); prints
  *         metered <file> load=<ret> cpu=<s> peak=<bytes> held=<bytes> reads=<n> eofreads=<n>
  *       peak = highest live heap during the call, held = heap still live after xmp_release_module + xmp_free_context,
  *       reads = calls of the hio read functions made by loaders / depackers, eofreads = those made with the stream
@@ -22,6 +23,8 @@
  *       (files up to <full> bytes: every offset; larger: the first and the last <full>/2 bytes and the 64 bytes behind every
  *       position a 32-bit value of the first 256 bytes points to), each variant metered:
  *         fieldswept <file> variants=<n> maxcpu=<s> maxeof=<n> maxpeak=<bytes> at=<offset of the slowest>
+ *   c02_play reloc <file>...
+ *       each file: every plausible header offset moved by the same large constant (4 variants), metered; same output line
  * A SIGALRM (12 s per prefix / variant, 20 s per played file) prints `HANG <file> <length or frame>` and exits 14;
  * more than EOF_READ_CAP reads after EOF in one call print `WORK <file> <position> eofreads` and exit 15.
  */
@@ -114,9 +117,9 @@ size_t __wrap_hio_read(void *b, size_t s, size_t n, HIO_HANDLE *h)
 	return __real_hio_read(b, s, n, h);
 }
 
-struct meter { int ret; double cpu; size_t peak, held; long reads, eofreads; };
+struct meter { int ret, fret, pret; double cpu; size_t peak, held; long reads, eofreads; };
 
-static struct meter metered_load(const unsigned char *in, long n)
+static struct meter metered_load(const unsigned char *in, long n, const char *path)
 {
 	struct meter m;
 	struct xmp_test_info ti;
@@ -140,6 +143,33 @@ static struct meter metered_load(const unsigned char *in, long n)
 	if (m.ret == 0)
 		xmp_release_module(c);
 	xmp_free_context(c);
+	m.fret = -99;
+	if (n > 0) {
+		/* the same through a FILE handle: loaders and format tests that fetch data on request (no underlying memory) */
+		FILE *fp = fmemopen(exact, (size_t)n, "rb");
+		if (fp) {
+			int r2;
+			xmp_test_module_from_file(fp, &ti);
+			rewind(fp);
+			c = xmp_create_context();
+			r2 = xmp_load_module_from_file(c, fp, n);
+			m.fret = r2;
+			if (r2 == 0)
+				xmp_release_module(c);
+			xmp_free_context(c);
+			fclose(fp);
+		}
+	}
+	m.pret = -99;
+	if (path) {
+		/* and by path: the only load entry point that runs the depackers */
+		xmp_test_module(path, &ti);
+		c = xmp_create_context();
+		m.pret = xmp_load_module(c, path);
+		if (m.pret == 0)
+			xmp_release_module(c);
+		xmp_free_context(c);
+	}
 	alarm(0);
 	{
 		struct timespec ts;
@@ -314,10 +344,74 @@ int main(int argc, char **argv)
 				continue;
 			cur_file = argv[i];
 			cur_pos = -1;
-			m = metered_load(in, n);
-			printf("metered %s load=%d cpu=%.3f peak=%zu held=%zu reads=%ld eofreads=%ld\n", argv[i], m.ret, m.cpu, m.peak, m.held,
-			       m.reads, m.eofreads);
+			m = metered_load(in, n, argv[i]);
+			printf("metered %s load=%d fload=%d pload=%d cpu=%.3f peak=%zu held=%zu reads=%ld eofreads=%ld\n", argv[i], m.ret, m.fret, m.pret, m.cpu,
+			       m.peak, m.held, m.reads, m.eofreads);
 			fflush(stdout);
+			free(in);
+		}
+		return 0;
+	}
+	if (argc >= 3 && !strcmp(argv[1], "reloc")) {
+		/* plausible offsets of the header (32-bit values of the first 256 bytes, 2-aligned, 0 < v < size) moved by the same
+		 * large constant, per byte order: (a) all of them, (b) each run of consecutive plausible values (an offset table):
+		 * the table keeps its order and distances, only its base lies */
+		static const unsigned long ks[2] = { 0x40000000ul, 0x7fe00000ul };
+		for (i = 2; i < argc; i++) {
+			long n = 0, off, variants = 0, maxeof = 0, at = -1, start;
+			unsigned char *in = read_all(argv[i], &n), *w;
+			double maxcpu = 0;
+			size_t maxpeak = 0;
+			int be, k;
+			if (!in)
+				continue;
+			cur_file = argv[i];
+			w = (unsigned char *)malloc(n > 0 ? n : 1);
+#define RD32(o) (be ? (((unsigned long)in[o] << 24) | (in[(o) + 1] << 16) | (in[(o) + 2] << 8) | in[(o) + 3]) \
+		    : (((unsigned long)in[(o) + 3] << 24) | (in[(o) + 2] << 16) | (in[(o) + 1] << 8) | in[o]))
+#define WR32(o, t) do { if (be) { w[o] = (t) >> 24; w[(o) + 1] = (t) >> 16; w[(o) + 2] = (t) >> 8; w[(o) + 3] = (t); } \
+			else { w[(o) + 3] = (t) >> 24; w[(o) + 2] = (t) >> 16; w[(o) + 1] = (t) >> 8; w[o] = (t); } } while (0)
+#define METER_VARIANT(tag) do { struct meter m; cur_pos = (tag); m = metered_load(w, n, NULL); variants++; \
+			if (m.cpu > maxcpu) { maxcpu = m.cpu; at = (tag); } if (m.eofreads > maxeof) maxeof = m.eofreads; \
+			if (m.peak > maxpeak) maxpeak = m.peak; } while (0)
+			for (be = 0; be < 2; be++) {
+				for (k = 0; k < 2; k++) {
+					long moved = 0;
+					memcpy(w, in, n);
+					for (off = 0; off + 4 <= n && off < 256; off += 2) {
+						unsigned long v = RD32(off);
+						if (v > 0 && v < (unsigned long)n) {
+							unsigned long t = v + ks[k] - (k ? (unsigned long)n : 0);
+							WR32(off, t);
+							moved++;
+							off += 2;
+						}
+					}
+					if (moved)
+						METER_VARIANT(-(be * 2 + k) - 1);
+				}
+				for (start = 0; start + 8 <= n && start < 128; start += 2) {
+					long run = 0;
+					if (start >= 4) {
+						unsigned long pv = RD32(start - 4);
+						if (pv > 0 && pv < (unsigned long)n)
+							continue;	/* not the start of a run */
+					}
+					memcpy(w, in, n);
+					for (off = start; off + 4 <= n && off < 256; off += 4) {
+						unsigned long v = RD32(off);
+						if (!(v > 0 && v < (unsigned long)n))
+							break;
+						WR32(off, v + ks[0]);
+						run++;
+					}
+					if (run >= 2)
+						METER_VARIANT(start);
+				}
+			}
+			printf("fieldswept %s variants=%ld maxcpu=%.3f maxeof=%ld maxpeak=%zu at=%ld\n", argv[i], variants, maxcpu, maxeof, maxpeak, at);
+			fflush(stdout);
+			free(w);
 			free(in);
 		}
 		return 0;
@@ -365,7 +459,7 @@ int main(int argc, char **argv)
 					struct meter m;
 					memcpy(in + off, vals[v], 4);
 					cur_pos = off;
-					m = metered_load(in, n);
+					m = metered_load(in, n, NULL);
 					variants++;
 					if (m.cpu > maxcpu) {
 						maxcpu = m.cpu;
